@@ -29,7 +29,7 @@ Inductive eerr : Type :=
 | EInvalidSig        (* enr.ErrInvalidSig (also: unknown identity scheme) *)
 | EKey               (* *enr.KeyError from Record.Load (missing key or undecodable value) *)
 | EInvalidPubkey     (* idscheme.go "invalid public key" (len != 33) *)
-| EFuel.             (* model fuel exhausted; never a Go behaviour (EnrProofs.pairs_fuel) *)
+| EFuel.             (* model fuel exhausted; never a Go behaviour (EnrProofs.decode_no_fuel) *)
 
 Definition eerr_code (e : eerr) : N :=
   match e with
